@@ -37,7 +37,7 @@ def parseOp (j : Json) : R Op := do
   | "construct" =>
     return .construct (← parseKind (← jStr (← fld j "kind"))) (← nat j "n") (← optNat j "h") (← optNat j "a")
   | "reinit" => return .reinit (← nat j "slot")
-  | "sample" => return .sample (← nat j "slot") (← nat j "k") (← nat j "num") (← optNat j "init")
+  | "sample" => return .sample (← nat j "slot") (← nat j "k") (← nat j "num") (← optNat j "init") (← nat j "arg")
   | "statistics" =>
     return .statistics (← nat j "slot") (← nat j "ns") (← nat j "nc") (← nat j "bi") (← nat j "steps")
       (← optNat j "init") (← nat j "arg")
